@@ -23,6 +23,8 @@ type recorder struct {
 	notify chan struct{}
 	// hook, when set, runs in the routing goroutine after the packet was recorded (a handler that takes its time)
 	hook func(stanza.Packet)
+	// evHook, when set, runs in the goroutine that delivers the event, after the event was recorded
+	evHook func(xmpp.Event)
 }
 
 func newRecorder() *recorder { return &recorder{notify: make(chan struct{}, 1)} }
@@ -40,6 +42,9 @@ func (r *recorder) onEvent(e xmpp.Event) error {
 	r.events = append(r.events, e)
 	r.mu.Unlock()
 	r.ping()
+	if r.evHook != nil {
+		r.evHook(e)
+	}
 	return nil
 }
 
